@@ -203,6 +203,127 @@ theorem C09_out_sites_source_tie :
        "interpolate.zoom", "interpolate.shift"] := by
   decide +kernel
 
+
+/-! ## Round 2 — the wrappers repaired after the first report -/
+
+/-- **C09-T2 (`convolve1d` as repaired, both paths, every axis).** On the contiguous fast path `out` is validated by
+`_get_output` against `f` itself; along the last axis the kernel writes the rows of `out` directly, along any other
+axis it writes a temporary and `out[...] = tmp…transpose(rindices)` copies it back; off the fast path `out` is
+forwarded to `convolve`. In all four cases the convention holds: no `out` → a fresh buffer with the result; an
+acceptable `out` → **that buffer** is returned and holds the result; any other `out` → the `ValueError` of
+`_get_output`, raised before anything is written. -/
+theorem C09_flow_convolve1d (f w : Desc) (fast lastAxis : Bool) :
+    Honours [f, w] f none (fun out => convolve1dP 0 1 out fast lastAxis) (.ap .kernel (.inp 0) (.inp 1)) := by
+  cases fast <;> cases lastAxis <;>
+  (refine ⟨?_, fun o => ⟨fun h => ?_, fun h => ?_⟩⟩
+   · flow_eval getOutput, convolve1dP
+   · obtain ⟨h1, h2, h3⟩ := h
+     simp only [expectedDtype] at h1
+     flow_eval getOutput, convolve1dP, h1, h2, h3
+   · obtain ⟨r, hr⟩ := getOutput_reject_of_not f o none h
+     flow_eval hr, convolve1dP)
+
+/-- **C09-T2 (`gaussian_filter1d` / `gaussian_filter` as repaired, bc1f729).** One pass forwards `out` to
+`convolve1d`; the n-D filter validates `out` once, copies the input into it, lets the passes alternate between it and
+one scratch buffer and, when the last pass landed in the scratch buffer, copies the result back
+(`if output is not result: result[...] = output`) and returns the user's buffer — for every number of axes.
+(`gaussRepairedP` is now the flow of the source; the pinned flow of `C09_gaussian_pinned_violates` is history.) -/
+theorem C09_flow_gaussian_repaired (a bc : Desc) (n : Nat) :
+    Honours [a, bc] a none (gauss1dP 0 1) (.ap .gauss1d (.inp 0) (.inp 1)) ∧
+    Honours [a, bc] a none (fun out => gaussRepairedP 0 1 out n) (gaussIter (.inp 1) n (.inp 0)) := by
+  refine ⟨?_, flow_gaussian_all a bc n⟩
+  honours_tac a, none
+
+/-- **C09-T2 (`open` / `close` with the deprecated `output=` alias, as repaired 399d97f).** The alias is forwarded
+to the first pass, where `_get_output` resolves it (`out` wins when both are given): a buffer passed as `output=`
+is honoured exactly like one passed as `out=`. -/
+theorem C09_flow_output_alias (f bc : Desc) :
+    Honours [f, bc] f none (fun o => openAliasP 0 1 none o)
+      (.ap .dilate (.ap .erode (.inp 0) (.inp 1)) (.inp 1)) ∧
+    Honours [f, bc] f none (fun o => closeAliasP 0 1 none o)
+      (.ap .erode (.ap .dilate (.inp 0) (.inp 1)) (.inp 1)) ∧
+    (∀ out output, out ≠ none → resolveAlias out output = out) := by
+  refine ⟨?_, ?_, ?_⟩
+  · have := C09_flow_open f bc
+    simpa [openAliasP, resolveAlias] using this
+  · have := C09_flow_close f bc
+    simpa [closeAliasP, resolveAlias] using this
+  · intro out output h
+    cases out with
+    | none => exact absurd rfl h
+    | some o => rfl
+
+/-- **C09 (`zoom` as repaired, 1873bd9).** `out` fixes the shape and the dtype of the result, so the only
+requirements are: an array of the input's rank, C-contiguous, writeable. Exactly then the call returns **`out`
+itself** holding the zoomed image (directly, or through a float temporary when the dtypes differ), the input intact;
+any other `out` raises (`ValueError`, from Python, before the native code runs) with `out` and the input untouched;
+without `out` a fresh buffer of the computed shape is returned. -/
+theorem C09_flow_zoom (a : Desc) (o : ZOut) (oshape : List Nat) :
+    let ok := o.isArray = true ∧ o.desc.shape.length = a.shape.length ∧ o.desc.ccontig = true ∧ o.writeable = true
+    let run := zoomP 0 (some 1) (some o) oshape (initSt [a] (some o.desc))
+    (ok → run.ret = some 1 ∧ run.st.val 1 = .ap .kernel (.inp 0) (.inp 0) ∧ run.st.val 0 = .inp 0) ∧
+    (¬ ok → zoomDecision a (some o) = .valueError ∧ run.ret = none ∧ run.st.val 1 = .old ∧ run.st.val 0 = .inp 0) ∧
+    ((zoomP 0 none none oshape (initSt [a] none)).retVal = some (.ap .kernel (.inp 0) (.inp 0)) ∧
+     (zoomP 0 none none oshape (initSt [a] none)).ret = some 1 ∧
+     (zoomP 0 none none oshape (initSt [a] none)).st.val 0 = .inp 0) := by
+  obtain ⟨od, ia, wr⟩ := o
+  obtain ⟨odt, osh, oc⟩ := od
+  intro ok run
+  refine ⟨?_, ?_, ?_⟩
+  · rintro ⟨h1, h2, h3, h4⟩
+    simp only at h1 h2 h3 h4
+    subst h1 h3 h4
+    by_cases hd : odt = a.dtype
+    · simp [run, zoomP, zoomDecision, initSt, St.desc, St.val, R.bind, alloc, write, List.zipIdx, R.ret, R.st, h2, hd]
+    · simp [run, zoomP, zoomDecision, initSt, St.desc, St.val, R.bind, alloc, write, List.zipIdx, R.ret, R.st, h2, hd]
+  · intro h
+    have hv : zoomDecision a (some ⟨⟨odt, osh, oc⟩, ia, wr⟩) = .valueError := by
+      simp only [zoomDecision]
+      by_cases c1 : ia = true
+      · by_cases c2 : osh.length = a.shape.length
+        · by_cases c3 : oc = true
+          · by_cases c4 : wr = true
+            · exact absurd ⟨c1, c2, c3, c4⟩ h
+            · simp [c1, c2, c3, c4]
+          · simp [c1, c2, c3]
+        · simp [c1, c2]
+      · simp [c1]
+    refine ⟨hv, ?_⟩
+    have hd : (initSt [a] (some ⟨odt, osh, oc⟩)).desc 0 = a := by
+      simp [initSt, St.desc, List.zipIdx]
+    have hrun : run = .raise .contig (initSt [a] (some ⟨odt, osh, oc⟩)) := by
+      show zoomP 0 (some 1) _ oshape _ = _
+      unfold zoomP
+      rw [hd, hv]
+    rw [hrun]
+    simp [R.ret, R.st, initSt, St.val, List.zipIdx]
+  · simp [zoomP, zoomDecision, initSt, St.desc, St.val, R.bind, alloc, write, List.zipIdx, R.ret, R.retVal, R.st]
+
+/-- how the repaired wrappers consume `out` in the current source (regenerated on every run): `convolve1d`
+validates with `_get_output(f, out)`, stores the transposed temporary with `out[...] = …`, returns `out`, and forwards
+`out` to `convolve` off the fast path; `gaussian_filter1d` forwards `out` to `convolve1d`; `gaussian_filter` validates
+with `_get_output`, hands the spare buffer to `gaussian_filter1d` (positionally, in the `out` slot), copies the last
+pass back with `result[...] = output` and returns `result`; `open`/`close` forward the `output=` alias; `zoom`
+raises `ValueError` for a non-array / wrong-rank / non-contiguous / read-only `out`. -/
+def C09.expectedSitesRepaired : List (String × List String × List String) := [
+  ("convolve.convolve1d", ["get_output(f,out,None)", "forward:convolve(out=out)",
+     "store:out[...]=tmp.reshape(tshape).transpose(rindices)", "return:out"], []),
+  ("convolve.gaussian_filter1d", ["forward:convolve1d(out=out)"], []),
+  ("convolve.gaussian_filter", ["get_output(array,out,None,output)", "forward:gaussian_filter1d(out=noutput)",
+     "store:result[...]=output", "return:result"], []),
+  ("morph.open", ["forward:erode(out=out)", "forward:erode(output=output)", "forward:dilate(out=eroded)"], []),
+  ("morph.close", ["forward:dilate(out=out)", "forward:dilate(output=output)", "forward:erode(out=dilated)"], []),
+  ("interpolate.zoom", ["return:out"],
+     ["not isinstance(out, np.ndarray) or out.ndim != array.ndim->ValueError",
+      "not (out.flags.c_contiguous and out.flags.writeable)->ValueError"])]
+
+/-- **tie of the Round-2 flows to the current source**: every validation, forwarding, copy-back and `return` the
+models `convolve1dP`, `gauss1dP`, `gaussRepairedP`, `openAliasP`, `closeAliasP`, `zoomP` rely on is still in the
+source the translator read today; removing one (e.g. the `result[...] = output` copy-back, the `output=output`
+forwarding, zoom's contiguity test) changes `Generated.outSites` and breaks `lake build`. -/
+theorem C09_repaired_sites_source_tie : C09.expectedSitesRepaired.all C09.siteOk = true := by
+  decide +kernel
+
 /-! non-vacuity: a concrete acceptable and three concrete unacceptable buffers for a (3,4) uint8 image,
     and the full run of `open` on them. -/
 example :
